@@ -42,6 +42,21 @@ Definition accepts_ok (s : socket) (p : packet) : Prop :=
   ((r_src_port (wire_parse (snd p)) =? 0) || (r_dst_port (wire_parse (snd p)) =? 0)) = false /\
   tcp_accepts s (fst p) (wire_parse (snd p)) = true.
 
+(* a step that touches only clocks / random numbers leaves sockets, logs and channels alone *)
+Definition ep_same_data (e' e : endpoint) : Prop :=
+  ep_sock e' = ep_sock e /\ ep_written e' = ep_written e /\ ep_read e' = ep_read e /\ ep_out e' = ep_out e.
+
+Lemma tick_same st d z : ep_same_data (net_get (tick_net st d) z) (net_get st z).
+Proof. destruct z; cbn; repeat split. Qed.
+
+Lemma rand_same st w isn ts z :
+  ep_same_data (net_get (net_set st w (ep_set_cx (net_get st w) (cx_rand (ep_cx (net_get st w)) isn ts))) z)
+               (net_get st z).
+Proof.
+  destruct (side_cases w z) as [-> | ->]; [rewrite net_get_set_same | rewrite net_get_set_other];
+    cbn; repeat split.
+Qed.
+
 Section OneWay.
 Variable x : side.
 Let y := side_other x.
@@ -268,6 +283,80 @@ Proof.
     destruct Hse as (-> & ->). exfalso.
     cbn [tcp_step] in Hs. assert (E1 : tcp_close (ep_sock (net_get st x)) = s') by (inversion Hs; reflexivity).
     rewrite Hk, <- E1 in Hst'. unfold tcp_close in Hst'. rewrite Hst in Hst'. sproj in Hst'. discriminate.
+Qed.
+
+(* ---------------------------------------------------------------------------------------- *)
+(* one step of the system in the one-way regime                                              *)
+(* ---------------------------------------------------------------------------------------- *)
+Variables Dt Da : Z.
+
+Definition txl (st : net) : Z := rb_len (s_tx_buffer (net_sock st x)).
+
+(* the goal of a round: y's RCV.NXT (or x's SND.UNA) is beyond the offset u0 *)
+Definition Qf (u0 : Z) (st : net) : Prop :=
+  u0 < rcv_off (net_get st y) \/ u0 < una_off (net_get st x).
+
+Definition Jbase (u0 dk : Z) (fa : fair_aux) (st : net) : Prop :=
+  NI st /\ opts_ok st /\ dl_sync fa st /\ net_now st y - net_now st x = dk /\
+  una_off (net_get st x) = u0 /\ rcv_off (net_get st y) = u0 /\ 0 < txl st.
+
+(* what the step did to the sender *)
+Definition x_rel (st st' : net) : Prop :=
+  s_local_seq_no (net_sock st' x) = s_local_seq_no (net_sock st x) /\
+  ((s_timer (net_sock st' x) = s_timer (net_sock st x) \/ s_timer (net_sock st' x) = TFastRetransmit \/
+    timer_is_idle (s_timer (net_sock st' x)) = true)
+   \/ emitted_at_una (net_now st x) (net_sock st x) (net_get st x) (net_get st' x)).
+
+Lemma y_is_other : side_other y = x.
+Proof. unfold y. apply side_other_inv. Qed.
+
+Lemma x_neq_y : x <> y.
+Proof. unfold y. intros E. symmetry in E. exact (side_other_neq x E). Qed.
+
+Lemma base_step u0 dk fa st ev st' :
+  oneway_safe st -> oneway_safe st' -> Jbase u0 dk fa st -> fair_ev fa st ev -> net_step st ev = Ok st' ->
+  Qf u0 st' \/ (Jbase u0 dk (fa_after Dt Da fa ev st') st' /\ x_rel st st').
+Proof.
+  intros HR HR' (HN & Ho & Hsy & Hdk & Hu & Hr & Hl) Hfe H.
+  pose proof (NI_step _ _ _ HN H) as HN'. pose proof (opts_step _ _ _ Ho H) as Ho'.
+  pose proof (fa_after_sync Dt Da _ _ _ _ Hsy Hfe H) as Hsy'.
+  assert (Hdk' : net_now st' y - net_now st' x = dk).
+  { rewrite (net_step_now _ _ _ x H), (net_step_now _ _ _ y H). lia. }
+  assert (Hsame : ep_same_data (net_get st' x) (net_get st x) -> ep_same_data (net_get st' y) (net_get st y) ->
+                  Qf u0 st' \/ (Jbase u0 dk (fa_after Dt Da fa ev st') st' /\ x_rel st st')).
+  { intros (X1 & X2 & X3 & X4) (Y1 & Y2 & Y3 & Y4). right.
+    unfold Jbase, x_rel, txl, net_sock, una_off, rcv_off, emitted_at_una. rewrite X1, X2, Y1, Y3.
+    split; [|split; [reflexivity | left; left; reflexivity]].
+    split; [exact HN'|]. split; [exact Ho'|]. split; [exact Hsy'|]. split; [exact Hdk'|].
+    split; [exact Hu|]. split; [exact Hr | exact Hl]. }
+  destruct (net_step_kind _ _ _ H) as [w ev0 e' Hse He E | to i E1 _ E | d E1 E | w isn ts E1 E | to i Hd].
+  - destruct (side_cases x w) as [Ew | Ew]; subst w st'.
+    + (* an event of the sender *)
+      destruct (x_event _ _ _ _ _ HN Ho HR HR' Hfe Hl Hse He) as [Hp | (U1 & U2 & U3 & U4)].
+      * left. right. rewrite net_get_set_same. rewrite <- Hu. exact Hp.
+      * right. split.
+        -- unfold txl, net_sock in Hl.
+           unfold Jbase, txl, net_sock. rewrite net_get_set_same.
+           replace (net_get (net_set st x e') y) with (net_get st y) by (symmetry; apply net_get_set_other).
+           split; [exact HN'|]. split; [exact Ho'|]. split; [exact Hsy'|]. split; [exact Hdk'|].
+           split; [rewrite U1; exact Hu|]. split; [exact Hr|]. eapply Z.lt_le_trans; [exact Hl | exact U3].
+        -- unfold x_rel, net_sock. rewrite net_get_set_same. split; [exact U2 | exact U4].
+    + (* an event of the receiver *)
+      change (side_other x) with y in He, Hse, HR', HN', Ho', Hsy', Hdk' |- *.
+      pose proof (y_event_mono _ _ _ _ HN HR Hse He) as Hm.
+      assert (Ex : net_get (net_set st y e') x = net_get st x).
+      { pose proof (net_get_set_other st y e') as X. rewrite y_is_other in X. exact X. }
+      destruct (Z_lt_le_dec (rcv_off (net_get st y)) (rcv_off e')) as [Hgt | Hle].
+      * left. left. rewrite net_get_set_same. rewrite <- Hr. exact Hgt.
+      * right. split.
+        -- unfold Jbase, txl, net_sock. rewrite Ex, net_get_set_same.
+           split; [exact HN'|]. split; [exact Ho'|]. split; [exact Hsy'|]. split; [exact Hdk'|].
+           split; [exact Hu|]. split; [|exact Hl]. apply Z.le_antisymm; [rewrite <- Hr; exact Hle | rewrite <- Hr; exact Hm].
+        -- unfold x_rel, net_sock. rewrite Ex. split; [reflexivity | left; left; reflexivity].
+  - subst st'. apply Hsame; repeat split.
+  - subst st'. apply Hsame; apply tick_same.
+  - subst st'. apply Hsame; apply rand_same.
+  - exfalso. destruct Hd as [-> | ->]; exact Hfe.
 Qed.
 
 End OneWay.
